@@ -184,6 +184,28 @@ def opGate (j : Json) : Except String Json := do
   return Json.mkObj [("result_ok", Json.bool r.isOk),
     ("fs", Json.arr (dedup.map fun (p, c) => Json.arr #[Json.str p, Json.str c]).toArray)]
 
+/-- canc: encode/decode of value vectors for one CAN binding, per the C runtime model -/
+def opCanC (j : Json) : Except String Json := do
+  let S ← J.schema (← j.getObjVal? "schema")
+  let fuel := getFuel j
+  let ix ← j.getObjValAs? Nat "impl"
+  let vals ← j.getObjValAs? (Array (Array Int)) "values"
+  match S.impls[ix]? with
+  | none => throw "bad impl index"
+  | some impl =>
+    match generate S true fuel impl with
+    | none => return Json.mkObj [("err", "noLayout")]
+    | some (ls, e) =>
+      let id := match impl.fields.lookup "id" with | some (.int n) => n | _ => -1
+      let outs := vals.map fun vs =>
+        let fr := CanC.encodeMsg id ls e vs.toList
+        let dec := CanC.decodeWord (CanC.encodeWord ls vs.toList) ls
+        Json.mkObj [("id", Json.num ⟨fr.id, 0⟩), ("dlc", fr.dlc), ("data", J.natsToJson fr.data),
+                    ("decoded", Json.arr (dec.map fun (i : Int) => Json.num ⟨i, 0⟩).toArray),
+                    ("packing", J.natsToJson (pack (packLeaves ls vs.toList)))]
+      return Json.mkObj [("bits", e), ("names", Json.arr (ls.map fun l => Json.str (replaceColons l.name)).toArray),
+        ("frames", Json.arr outs)]
+
 def opSched (j : Json) : Except String Json := do
   let periods ← j.getObjValAs? (Array Int) "periods"
   let times ← j.getObjValAs? (Array Nat) "times"
@@ -201,6 +223,7 @@ def dispatch (j : Json) : Except String Json := do
   | "sched" => opSched j
   | "dbc" => opDbc j
   | "gate" => opGate j
+  | "canc" => opCanC j
   | _ => throw s!"unknown op {op}"
 
 partial def loop (hin : IO.FS.Stream) (hout : IO.FS.Stream) : IO Unit := do
